@@ -226,7 +226,7 @@ def load_corpus() -> list[dict]:
 def run(ctx: Ctx) -> None:
     python_flags()
     ctx.rule = RULE
-    n = ctx.budget(5000, 40000)
+    n = ctx.budget(4000, 40000)
     cases, outs = [], []
     for c in load_corpus():
         c = {k: v for k, v in c.items() if k in ("limits", "actors", "ctl", "end")}
